@@ -61,7 +61,7 @@ def make_between(sc, kind, rng_seed):
                 elif kind == "sameclass":
                     if "b" not in state or rng.random() < 0.3:
                         other = enggen.gen_scenario(rng, dict(K, sends=0.0, raises=0.0, p_async=0.0))
-                        ns2 = {}
+                        ns2 = {"__name__": "scn_other"}       # another module with a class of the same name
                         # same class names (M, Mdl, L2..), same method names, other machine; methods take an
                         # extra leading parameter so that their variable names differ from A's (see D7)
                         src = eng.render_source(other)
@@ -115,30 +115,14 @@ def make_between(sc, kind, rng_seed):
     return between
 
 
-def make_wrap():
-    from statemachine import State, StateMachine
-    box = {}
-
-    def wrap(ns, thunk):
-        if "host" not in box:
-            class Host(StateMachine):
-                idle = State(initial=True)
-                busy = State()
-                work = idle.to(busy) | busy.to(idle)
-
-                def on_work(self, thunk):
-                    return thunk()
-
-                def on_enter_busy(self):
-                    return None
-            box["host"] = Host()
-        return box["host"].send("work", thunk=thunk)       # the on-callback's value is the event's result
-    return wrap
+make_wrap = eng.make_host_wrap
 
 
 def run_impl(sc):
     if sc.get("probe") == "d13":
         return d13_probe()
+    if sc.get("probe") == "d21":
+        return d21_probe()
     alone = eng.run_impl(sc)
     try:
         eng.BETWEEN = make_between(sc, sc["kind"], sc["seed"])
@@ -161,6 +145,38 @@ def run_impl(sc):
     def strip(o):
         return [{k: v for k, v in x.items() if k in ("out", "field", "allowed", "log")} for x in o]
     return {"obs": inter, "same": strip(alone) == strip(inter)}
+
+
+def d21_probe():
+    """a class whose event is declared with from_.any(); defining subclasses must not change its
+    transitions (nor give the subclasses more than the one transition per non-final state)"""
+    from statemachine import State, StateMachine
+    with warnings.catch_warnings():
+        warnings.simplefilter("ignore")
+
+        class Base(StateMachine):
+            a = State(initial=True)
+            b = State()
+            done = State(final=True)
+            go = a.to(b)
+            finish = done.from_.any(cond="ok")
+            ok = True
+
+        def shape(cls):
+            return [(t.source.id, t.target.id, sorted(str(e) for e in t.events)) for s_ in cls.states for t in s_.transitions]
+        before = shape(Base)
+
+        class Sub(Base):
+            pass
+
+        class Sub2(Base):
+            pass
+        bad = []
+        if shape(Base) != before:
+            bad.append(["base class changed by defining subclasses", before, shape(Base)])
+        if shape(Sub2) != before:
+            bad.append(["subclass has other transitions than its base", before, shape(Sub2)])
+    return {"probe": "d21", "bad": bad}
 
 
 def d13_probe():
@@ -196,6 +212,9 @@ def coq_case(sc, obs):
 
 
 def render_source(sc):
+    if sc.get("probe") == "d21":
+        return ("# probe: class Base declares finish = done.from_.any(cond=...); class Sub(Base): pass; class Sub2(Base): pass\n"
+                "# the (source, target, events) list of Base before / after, and of Sub2\n")
     if sc.get("probe"):
         return "# probe: class Sub(Base) declares Base.a.to(c); Base().allowed_events before / after\n"
     return eng.render_source(sc) + f"\n# unrelated activity between operations: {sc['kind']} (seed {sc['seed']})\n"
@@ -210,7 +229,19 @@ def generate(rng, tier):
         sc["kind"] = KINDS[i % len(KINDS)]
         sc["seed"] = rng.randrange(10 ** 6)
         scs.append(sc)
+    for i in range(n // 8):
+        # the machine is created by a MachineMixin model from its fully qualified class name, while
+        # another module defines (before and in between) a class with the same name
+        sc = enggen.gen_scenario(rng, dict(K, listeners=(0, 0), rtc_false=0.0, allow=0.0, start=0.0, p_construct=0.15,
+                                           falsy_machine=0.0, styles=("str", "list", "assign")))
+        sc["async"] = []
+        sc["mixin"] = True
+        sc["allow"], sc["rtc"], sc["start"] = False, True, None
+        sc["kind"] = "sameclass"
+        sc["seed"] = rng.randrange(10 ** 6)
+        scs.append(sc)
     scs.append({"probe": "d13"})
+    scs.append({"probe": "d21"})
     return scs, [("seeded random machines, each run alone and with unrelated activity between every two operations "
                   "(another instance of the class with other listeners incl. coroutine ones / another class with "
                   "the same class and method names / a subclass adding callbacks / an unrelated class / an unrelated class "
@@ -231,7 +262,12 @@ def d13(sc, v):
     return sc.get("probe") == "d13"
 
 
-CLASSIFIERS = {"C16.subclass_transition_from_inherited_state": d13}
+def d21(sc, v):
+    return sc.get("probe") == "d21"
+
+
+CLASSIFIERS = {"C16.subclass_transition_from_inherited_state": d13,
+               "C16.from_any_expanded_again_for_subclasses": d21}
 
 
 def extra_coverage(scs, obs, verdicts):
